@@ -333,17 +333,24 @@ def guard_edges_for_call(body, p_nodes, value):
 
 def guard(ctx, inst, body, s_nodes, edges, what, require_edges=True):
     """each S is reachable from entry only through one of `edges` (edges of the
-    predicate's switch carrying the required polarity)"""
+    predicate's switch carrying the required polarity) with no re-definition of
+    the tested value between that edge and S"""
     if require_edges and not edges:
         ctx.anchor_missing(inst, "%s: predicate of `%s` is not tested by any branch" % (body.path, what), body.path)
         return False
+    unmark = set()
+    for (sw, _) in edges:
+        unmark |= A.root_invalidators(body, A.switch_info(body, sw).root)
+    ps = A.PathSearch(body)
+    ps.run([body.entry], mark_edges=frozenset(edges), unmark_nodes=frozenset(unmark))
     ok_all = True
     for s in s_nodes:
-        r, ps = A.reach(body, [body.entry], blocked_edges=set(edges))
-        good = s not in r
+        st = ps.reached_unmarked.get(s)
+        good = st is None
         ctx.check(good, inst, "GUARD", body.path, what, _site(body, s),
-                  None if good else {"rule": "the site is reachable without taking the required branch of the predicate",
-                                     "witness": witness(body, ps, r.get(s))})
+                  None if good else {"rule": "the site is reachable without the required outcome of the predicate holding "
+                                             "(branch not taken, or the tested value was reassigned afterwards)",
+                                     "witness": witness(body, ps, st)})
         ok_all &= good
     return ok_all
 
